@@ -601,6 +601,9 @@ class Solver:
                 expected_rewards_next, expected_rewards_min_reach, expected_reach_min_rewards = state.value_iteration_rewards(self.state_list)
                 current_diff_expected_rew = abs(expected_rewards_next - state.expected_rewards)
                 current_diff_min_reach = abs(expected_rewards_min_reach - state.expected_rewards_min_reach)
+                if state.is_final_node:
+                    # a final state has been reached, whatever follows it
+                    expected_reach_min_rewards = state.expected_reach_min_rewards
                 current_diff_reach = abs(expected_reach_min_rewards - state.expected_reach_min_rewards)
                 current_diff = max(current_diff_expected_rew, current_diff_min_reach, current_diff_reach)
                 if current_diff > max_diff:
